@@ -2,7 +2,7 @@
 import random
 from typing import Any, Dict, Iterator, List
 
-from core import Case, Prop, SelfCheckFailure
+from core import Case, Prop, SelfCheckFailure, pack_stable, ISOLATION, REUSE
 from gen import hx, unhx, pool, out_pool, rbytes
 
 import spacepackets.cfdp.defs as cdefs
@@ -19,6 +19,9 @@ WIDTHS = [1, 2, 4, 8]
 FLAGS = ["ptype", "dir", "mode", "crc", "large", "segctrl", "segmeta"]
 HDR_KEYS = ["ptype", "segmeta", "dlen", "src_w", "src_v", "dst_w", "dst_v", "seq_w", "seq_v", "mode", "large",
             "crc", "dir", "segctrl"]
+# what lives in the PduConfig object (the rest of HDR_KEYS lives on the header object itself)
+CONF_KEYS = ["src_w", "src_v", "dst_w", "dst_v", "seq_w", "seq_v", "mode", "large", "crc", "dir", "segctrl"]
+CONF_FLAGS = ["mode", "large", "crc", "dir", "segctrl"]
 
 
 # --------------------------------------------------------------------------------------------
@@ -41,9 +44,69 @@ def _conf(a) -> PduConfig:
                      seg_ctrl=SegmentationControl(a["segctrl"]))
 
 
-def _hdr(a) -> PduHeader:
+# ---- state leaking between calls / objects: shared helpers (also used by props/c06_*.py, c07.py, c12.py) ----
+def conf_view(c: PduConfig) -> Dict[str, Any]:
+    """what a caller sees of a configuration object (public attributes only)"""
+    s, d, q = c.source_entity_id, c.dest_entity_id, c.transaction_seq_num
+    return {"src_w": int(s.byte_len), "src_v": int(s.value), "dst_w": int(d.byte_len), "dst_v": int(d.value),
+            "seq_w": int(q.byte_len), "seq_v": int(q.value), "mode": int(c.trans_mode), "large": int(c.file_flag),
+            "crc": int(c.crc_flag), "dir": int(c.direction), "segctrl": int(c.seg_ctrl)}
+
+
+def shared_conf(a) -> PduConfig:
+    """the PduConfig for the case's parameters as a program holds it: built once, handed to many constructors
+    (the same instance for cases with equal configuration parameters). Only for ops that call no setter."""
+    return REUSE.get(["PduConfig", [a[k] for k in CONF_KEYS], a.get("via", 0)], lambda: _conf(a))
+
+
+def conf_untouched(conf: PduConfig, a, what: str):
+    """C11 clause seen from the encoders: constructing / packing does not modify the caller's configuration"""
+    now, fresh = conf_view(conf), conf_view(_conf(a))
+    if now != fresh:
+        diff = sorted(k for k in fresh if now.get(k) != fresh[k])
+        raise SelfCheckFailure(f"{what} modified the PduConfig object the caller passed in (fields {diff})")
+
+
+_ROT = {1: 2, 2: 4, 4: 8, 8: 1}
+
+
+def contrast_conf(a) -> Dict[str, Any]:
+    """`a` with every field of the configuration changed: all five flags, both widths, all three values"""
+    b = dict(a)
+    for k in CONF_FLAGS:
+        b[k] = 1 - a[k]
+    idw, sw = _ROT.get(a["src_w"], 1), _ROT.get(a["seq_w"], 1)
+    b.update(src_w=idw, dst_w=idw, seq_w=sw, src_v=(a["src_v"] + 1) % (1 << (8 * idw)),
+             dst_v=(a["dst_v"] + 1) % (1 << (8 * idw)), seq_v=(a["seq_v"] + 1) % (1 << (8 * sw)))
+    return b
+
+
+def contrast_header(f) -> bytes:
+    """octets of a valid header (independent encoder) that differs from the header with field view `f` in every
+    configuration field and in type, segment-metadata flag and data-field length"""
+    b = contrast_conf(f)
+    b.update(ptype=1 - f["ptype"], segmeta=1 - f["segmeta"], dlen=(f["dlen"] + 0x0101) % 65536)
+    return spec_pack(b)
+
+
+def decoded_alone(obj, view, f, what: str, before=None):
+    """decoded objects do not share state - self-contained form: decoding ANOTHER header (every configuration field
+    different from the header fields in `f`) leaves the object decoded before as it was (`before` = view(obj), default f)"""
+    before = f if before is None else before
+    PduHeader.unpack(contrast_header(f))
+    try:
+        again = view(obj)
+    except SelfCheckFailure as e:
+        raise SelfCheckFailure(f"{what}: after another header was decoded the object decoded before is inconsistent: {e}")
+    if again != before:
+        diff = sorted(k for k in before if again.get(k) != before[k])
+        raise SelfCheckFailure(f"{what}: the decoded object changed when another header was decoded afterwards "
+                               f"(fields {diff}): decoded objects share state")
+
+
+def _hdr(a, conf: PduConfig = None) -> PduHeader:
     return PduHeader(pdu_type=PduType(a["ptype"]), segment_metadata_flag=SegmentMetadataFlag(a["segmeta"]),
-                     pdu_data_field_len=a["dlen"], pdu_conf=_conf(a))
+                     pdu_data_field_len=a["dlen"], pdu_conf=_conf(a) if conf is None else conf)
 
 
 def _bf_view(f, what: str):
@@ -68,11 +131,9 @@ def _fields(h: PduHeader) -> Dict[str, Any]:
 def _packed(h: PduHeader) -> Dict[str, Any]:
     """fields + octets; property clauses visible on the real code alone are checked here"""
     f = _fields(h)
-    raw = bytes(h.pack())
+    raw = pack_stable(h, "PduHeader.pack()")
     if len(raw) != f["header_len"]:
         raise SelfCheckFailure(f"len(pack())={len(raw)} != header_len={f['header_len']}")
-    if bytes(h.pack()) != raw:
-        raise SelfCheckFailure("pack() twice gives different octets")
     if int(AbstractPduBase.header_len_from_raw(raw)) != f["header_len"]:
         raise SelfCheckFailure("header_len_from_raw(pack()) != header_len")
     h2 = PduHeader.unpack(raw)
@@ -89,31 +150,50 @@ def _packed(h: PduHeader) -> Dict[str, Any]:
 def op_hdr_bf(a):
     f = UnsignedByteField(a["v"], a["w"])
     w, v = _bf_view(f, "byte field")
-    return {"w": w, "v": v, "raw": hx(f.as_bytes)}
+    return {"w": w, "v": v, "raw": hx(pack_stable(f, "UnsignedByteField.as_bytes", packer=lambda: f.as_bytes))}
 
 
 def op_hdr_bf_from_bytes(a):
     f = ByteFieldGenerator.from_bytes(a["w"], unhx(a["raw"]))
     w, v = _bf_view(f, "byte field")
-    return {"w": w, "v": v, "raw": hx(f.as_bytes)}
+    return {"w": w, "v": v, "raw": hx(pack_stable(f, "UnsignedByteField.as_bytes", packer=lambda: f.as_bytes))}
 
 
 def op_hdr_conf_len(a):
-    return {"len": int(_conf(a).header_len())}
+    conf = shared_conf(a)
+    n = int(conf.header_len())
+    conf_untouched(conf, a, "PduConfig.header_len()")
+    return {"len": n}
 
 
 def op_hdr_new(a):
-    return _fields(_hdr(a))
+    conf = shared_conf(a)
+    f = _fields(_hdr(a, conf))
+    conf_untouched(conf, a, "PduHeader(...)")
+    return f
 
 
 def op_hdr_pack(a):
-    return _packed(_hdr(a))
+    conf = shared_conf(a)
+    f = _packed(_hdr(a, conf))
+    conf_untouched(conf, a, "PduHeader(...).pack()")
+    return f
+
+
+def _digest(h: PduHeader) -> Dict[str, Any]:
+    """cheap but complete view of a header for the isolation probes: the octets it packs to (every value, width and
+    flag is in there) and its lengths"""
+    return {"raw": hx(h.pack()), "header_len": int(h.header_len), "packet_len": int(h.packet_len)}
 
 
 def op_hdr_unpack(a):
     raw = unhx(a["raw"])
     h = PduHeader.unpack(raw)
     f = _fields(h)
+    # the headers decoded by the previous calls are looked at again (decoding this input must not have changed them),
+    # and this one is looked at again after another header was decoded
+    d = ISOLATION.check("C05:PduHeader", h, _digest)
+    decoded_alone(h, _digest, f, "PduHeader.unpack", before=d)
     if f["header_len"] > len(raw):
         raise SelfCheckFailure("decoded header is longer than the buffer it was decoded from")
     if bytes(h.pack()) != raw[: f["header_len"]]:
@@ -136,13 +216,17 @@ def op_hdr_check_len(a):
 
 
 def op_hdr_verify(a):
-    h = _hdr(a)
-    return {"len": int(h.verify_length_and_checksum(unhx(a["data"])))}
+    conf = shared_conf(a)
+    h = _hdr(a, conf)
+    n = int(h.verify_length_and_checksum(unhx(a["data"])))
+    conf_untouched(conf, a, "PduHeader.verify_length_and_checksum")
+    return {"len": n}
 
 
 def op_hdr_unpack_verify(a):
     raw = unhx(a["raw"])
     h = PduHeader.unpack(raw)
+    ISOLATION.check("C05:PduHeader", h, _digest)
     n = int(h.verify_length_and_checksum(raw))
     if n != int(h.packet_len):
         raise SelfCheckFailure("verify_length_and_checksum does not return packet_len")
@@ -540,6 +624,28 @@ class C05(Prop):
             pdu = with_crc(spec_pack(a) + rbytes(rng, d - 2))
             yield Case({"op": "hdr_verify", **a, "data": hx(pdu)}, "valid", tag="verify-large")
             yield Case({"op": "hdr_verify", **a, "data": hx(pdu[:-1])}, "invalid", errclass=True, tag="verify-large")
+
+        # --- state leaking between calls / objects (the ops keep the objects decoded by the previous calls and
+        #     hand the same PduConfig instance to cases with equal configuration parameters) ---
+        for i in range(4000 if thorough else 150):
+            a = rand_hdr(rng)
+            b = contrast_conf(a)
+            b.update(ptype=1 - a["ptype"], segmeta=1 - a["segmeta"], dlen=rng.choice(dl_pool))
+            ra, rb = spec_pack(a), spec_pack(b)
+            # decode A, then B (every configuration field differs), then A again, B with a suffix
+            yield dec_case(ra + rng.choice([b"", rbytes(rng, 3)]), "isolation-pair")
+            yield dec_case(rb, "isolation-pair")
+            yield dec_case(ra, "isolation-pair")
+            yield Case({"op": "hdr_unpack_verify", "raw": hx(rb + rbytes(rng, 2))}, "any", tag="isolation-pair")
+            # one configuration, several headers built from it back to back, then the contrasting one
+            for j in range(3):
+                h = dict(a, ptype=(a["ptype"] + j) % 2, segmeta=(a["segmeta"] + j // 2) % 2, dlen=rng.choice(dl_pool))
+                yield Case({"op": "hdr_pack", **h}, "valid", tag="shared-config")
+            yield Case({"op": "hdr_new", **a}, "valid", tag="shared-config")
+            yield Case({"op": "hdr_pack", **b}, "valid", tag="shared-config")
+            if i % 4 == 0:
+                yield Case({"op": "hdr_conf_len", **a}, "valid", tag="shared-config")
+                yield Case({"op": "hdr_pack", **a}, "valid", tag="shared-config")
 
 
 PROP = C05()
